@@ -81,7 +81,8 @@ def dir_hashsums(dir: Path, alg: str = DEF_HASH_ALG) -> DirHashsums:
     """
     ret: Dict[str, Any] = {}
     for path in dir.rglob("*"):
-        is_file, is_sym = path.is_file(), path.is_symlink()
+        is_sym = path.is_symlink()
+        is_file = not is_sym and path.is_file()  # is_file() follows symlinks
         relpath = path.relative_to(dir)
 
         fname = None
